@@ -17,6 +17,8 @@ SHAPES = {  # name -> (n, edges as (parent, child) index pairs)
     "two_comp": (4, [(0, 1), (2, 3)]),
     "family3": (4, [(0, 3), (1, 3), (2, 3)]),
     "fork4": (4, [(0, 1), (0, 2), (0, 3)]),
+    "confmed": (4, [(0, 1), (0, 2), (1, 2), (2, 3)]),          # A->X, A->M, X->M, M->Y : confounded mediator
+    "frontdoor": (4, [(0, 1), (0, 3), (1, 2), (2, 3)]),        # U->X, U->Y, X->M, M->Y
     "mshape": (5, [(0, 2), (1, 2), (1, 3), (4, 3)]),
     "student": (5, [(0, 2), (1, 2), (1, 3), (2, 4)]),
     "chain_coll": (5, [(0, 1), (1, 2), (3, 2), (2, 4)]),
